@@ -300,3 +300,19 @@ func TestC12SignedChunkSizeFieldIsMalformed(t *testing.T) {
 		t.Errorf("signed stream with size field \"+a\": accepted, decoded %q", got)
 	}
 }
+
+// C02: a presigned URL dated in the future was accepted: with X-Amz-Date two days (or ten years) ahead the URL is valid
+// for far longer than its X-Amz-Expires says and than the seven days the protocol allows.
+func TestC02PresignedDateInTheFutureIsRefused(t *testing.T) {
+	if err := validateExpiration("3600", time.Now().UTC().Add(-10*time.Minute)); err != nil {
+		t.Errorf("a url presigned ten minutes ago for an hour is refused: %v", err)
+	}
+	if err := validateExpiration("3600", time.Now().UTC().Add(5*time.Minute)); err != nil {
+		t.Errorf("a url dated five minutes ahead (clock skew) is refused: %v", err)
+	}
+	for _, ahead := range []time.Duration{48 * time.Hour, 10 * 365 * 24 * time.Hour} {
+		if err := validateExpiration("3600", time.Now().UTC().Add(ahead)); err == nil {
+			t.Errorf("a url dated %v in the future is accepted", ahead)
+		}
+	}
+}
